@@ -50,6 +50,19 @@ def families(rng, thorough):
         fams.append([X, {"s": "Annotated", "arg": X}, {"s": "Str", "arg": X}])
     for X in (A, I):
         fams.append([{"s": "list", "arg": X}, {"s": "List", "arg": X}, {"s": "Str", "arg": {"s": "list", "arg": X}}])
+    # the same equivalences inside type[...] (annotations of passed classes)
+    ty = lambda x: {"s": "typeof", "arg": x}   # noqa: E731
+    for mem in ([A, B], [A, I]):
+        f = []
+        for perm in itertools.permutations(mem):
+            f.append(ty({"s": "Union", "args": list(perm)}))
+            f.append(ty({"s": "Pipe", "args": list(perm)}))
+        f.append(ty({"s": "Annotated", "arg": {"s": "Union", "args": mem}}))
+        fams.append(f)
+    for X in (A, I):
+        fams.append([ty({"s": "Optional", "arg": X}), ty({"s": "Pipe", "args": [X, NONE]}), ty({"s": "Union", "args": [NONE, X]})])
+        fams.append([ty(X), ty({"s": "Annotated", "arg": X})])
+    fams.append([ty({"s": "object"}), ty({"s": "any"}), ty({"s": "Annotated", "arg": {"s": "any"}})])
     for vals in ([1, 2], [1, 2, 3]):
         fams.append([{"s": "Literal", "vals": list(p)} for p in itertools.permutations(vals)])
     return fams
